@@ -59,6 +59,27 @@ var apiFuncs = map[string]apiFn{
 		var r1, r2 sipsp.PsipURI
 		ok, err, w := sipsp.URIParseCmp(in, other, sipsp.URICmpFlags(exInt(ex, "flags")), &r1, &r2)
 		ok2, err2, w2 := sipsp.URIRawCmp(other, in, sipsp.URICmpFlags(exInt(ex, "flags")))
+		// the same result structures used again without Reset (first for a longer URI): no panic, every reported field
+		// can be dereferenced against the URI it belongs to
+		long := []byte("sips:user:password@some.long.host.example.org:5061;transport=tls;lr?h1=v1&h2=v2")
+		sipsp.URIParseCmp(long, long, 0, &r1, &r2)
+		ok3, err3, _ := sipsp.URIParseCmp(in, other, sipsp.URICmpFlags(exInt(ex, "flags")), &r1, &r2)
+		if err3 == 0 {
+			for i, u := range []*sipsp.PsipURI{&r1, &r2} {
+				b := [][]byte{in, other}[i]
+				for _, f := range []sipsp.PField{u.Scheme, u.User, u.Pass, u.Host, u.Port, u.Params, u.Headers} {
+					if int(f.Offs)+int(f.Len) > len(b) {
+						return fmt.Sprintf("BAD reused-result field %v of r%d outside its URI (len %d)", f, i+1, len(b))
+					}
+				}
+				l, sh := u.Long(), u.Short()
+				_ = u.Flat(b)
+				_, _ = l.Get(b), sh.Get(b)
+			}
+		}
+		if ok3 != ok || err3 != err {
+			return fmt.Sprintf("BAD reused-result verdict (%v,%v) differs from (%v,%v) with new structures", ok3, err3, ok, err)
+		}
 		return fmt.Sprint(ok, err, w, ok2, err2, w2)
 	},
 	"URIParamsEq": func(in []byte, ex map[string]any) string {
